@@ -23,7 +23,7 @@ PROP = {  # commit subject prefix -> property
  "a Literal made from a non-finite": "C09", "normalize() of a binary": "C09", "xsd:normalizedString": "C09",
  "DELETE WHERE matches": "C10", "DELETE WHERE { GRAPH ?g": "C10", "USING and USING NAMED define": "C10", "the TriX parser strips": "C06", "INSERT templates skip": "C10", "a blank node label in an INSERT": "C10",
  "template GRAPH ?g": "C10", "DROP DEFAULT through": "C10", "updates outside GRAPH": "C10", "CLEAR/DROP NAMED": "C10",
- "the TriX parser scopes": "C12", "reading a dataset through": "C13", "SPARQL string literals accept": "C16",
+ "the TriX parser scopes": "C12", "reading a dataset through": "C13", "listing the graphs of a Dataset": "C13", "SPARQL string literals accept": "C16",
  "the TSV result reader keeps a variable": "C16", "graph canonicalisation only": "C14",
  "the N-Triples/N-Quads parser accepts IRIs": "C03",
  "canonicalisation verifies": "C14", "canonicalisation keeps tying": "C14", "Turtle, long Turtle and N3 serialisation terminates": "C03",
